@@ -21,7 +21,7 @@ COMPONENTS = {"real": ["pyjelly serializers and parsers of both integrations inc
               "stub": ["reader for the option-off clause: simkit.refdec"]}
 ASSUMPTIONS = ["rdflib: bindings use labels/IRIs that do not collide with rdflib's default bindings and are compared "
                "as rdflib holds them on the source graph"]
-PROBES = ["generic_runs", "rdflib_runs", "evictions_with_ns", "empty_prefix_label", "cross_integration_reads",
+PROBES = ["multi_group_declarations", "generic_runs", "rdflib_runs", "evictions_with_ns", "empty_prefix_label", "cross_integration_reads",
           "physical_GRAPHS", "physical_QUADS"]
 SHRINK_LISTS = ["ops"]
 
@@ -44,7 +44,8 @@ def generate(rng, run, tier):
     if entry == "graph_serialize" and physical == "GRAPHS":
         cfg["pass_stream"] = True
     if entry == "grouped_file":
-        cfg["groups"] = [len(stmts)]
+        cfg["groups"] = c01.split_groups(rng, len(stmts)) if rng.random() < 0.6 else [len(stmts)]
+        cfg["ns_all_groups"] = True
     ops = [["ns", p, i] for p, i in nss] + [["stmt", *T.to_json(st)] for st in stmts]
     return {"cfg": cfg, "ops": ops}
 
@@ -110,10 +111,14 @@ def execute(plan, sim):
     except Exception as e:  # noqa: BLE001
         v.append({"clause": "C14.parse_raised", "sig": {"exc": type(e).__name__}, "msg": f"{type(e).__name__}: {e}"})
         return v, key
-    # (1) declarations delivered: same prefix, same IRI, same order
-    if ev != want:
+    # (1) declarations delivered: same prefix, same IRI, same order (once per group written)
+    n_groups = len(cfg.get("groups") or [1]) if cfg["entry"] == "grouped_file" else 1
+    if n_groups > 1:
+        sim.count("multi_group_declarations")
+    want_ev = want * n_groups
+    if ev != want_ev:
         v.append({"clause": "C14.declarations_differ", "sig": {"integration": integration, "reader": "flat"},
-                  "msg": f"bound on the source {want!r}; flat parse delivered {ev!r}"})
+                  "msg": f"bound on the source {want!r} (x{n_groups} groups); flat parse delivered {ev!r}"})
     if integration == "generic":
         want_map = dict(want)
         if dict(cont_ns) != want_map or [p for p, _ in cont_ns] != list(want_map):
@@ -136,14 +141,14 @@ def execute(plan, sim):
         sim.count("cross_integration_reads")
         try:
             ev2 = [(i[1], i[2]) for i in nodes.parse_flat(other, io.BytesIO(data_on)) if i[0] == "ns"]
-            if ev2 != want:
+            if ev2 != want_ev:
                 v.append({"clause": "C14.declarations_differ", "sig": {"integration": integration, "reader": other},
                           "msg": f"bound on the source {want!r}; {other} flat parse delivered {ev2!r}"})
         except Exception as e:  # noqa: BLE001
             v.append({"clause": "C14.parse_raised", "sig": {"exc": type(e).__name__, "reader": other},
                       "msg": f"{other}: {type(e).__name__}: {e}"})
     # (4) re-serializing what was read reproduces the same declarations
-    if not v:
+    if not v and n_groups == 1:
         try:
             ops2 = [["ns", p, i[1]] for p, i in ev] + [["stmt", *T.to_json(s)] for s in stmts]
             if integration == "generic":
